@@ -22,7 +22,7 @@ Proof. exact optimize_none. Qed.
 Print Assumptions C12_none.
 
 Theorem C12_error_partial : forall O, lp_spec 0 O -> forall ts objective mx, wfl ts -> NoDup (keys objective) ->
-  poly_optimize O ts objective mx = inr ValueErr -> lp_total O ->
+  ts <> [] -> poly_optimize O ts objective mx = inr ValueErr -> lp_total O ->
   (forall rho, ~ sat_list rho ts) \/
   (forall bound, exists rho, sat_list rho ts /\ (if mx then bound < lin rho objective else lin rho objective < bound)).
 Proof. exact optimize_error. Qed.
